@@ -30,6 +30,8 @@ M0 == [cfg |-> [mode |-> "ip4", filter |-> "all", maxnodes |-> 16, vote_min |-> 
        votes |-> <<>>,      \* latest PONG vote per eligible voter: [voter, sock]
        answered |-> {},     \* requests of the node that already got a response or a failure report (later ones are ignored)
        offered |-> {},      \* ids offered to the table by a session report or an explicit add
+       offrecs |-> {},      \* the records they were offered with
+       netrecs |-> {},      \* records seen in NODES responses
        xs |-> <<>>]         \* FINDNODE exchanges: [rid, to, x] with x the request state of NodesExchange.tla, fed with the observed packets
 Init == l = 1 /\ t = T0 /\ m = M0 /\ viols = <<>> /\ sr = [t |-> T0, ret |-> "ok", out |-> <<>>]
 
@@ -40,6 +42,8 @@ ShapeOf(rec) == IF \E s \in Shapes : \E p \in PeerNames : \E q \in 1..9 : rec = 
                 THEN CHOOSE s \in Shapes : \E p \in PeerNames : \E q \in 1..9 : rec = p \o ":" \o ToString(q) \o ":" \o s ELSE "?"
 RecSeq(rec) == IF \E q \in 1..9 : \E s \in Shapes : \E p \in PeerNames : rec = p \o ":" \o ToString(q) \o ":" \o s
               THEN CHOOSE q \in 1..9 : \E s \in Shapes : \E p \in PeerNames : rec = p \o ":" \o ToString(q) \o ":" \o s ELSE 0
+RecOwner(rec) == IF \E p \in PeerNames : \E q \in 1..9 : \E s \in Shapes : rec = p \o ":" \o ToString(q) \o ":" \o s
+                THEN CHOOSE p \in PeerNames : \E q \in 1..9 : \E s \in Shapes : rec = p \o ":" \o ToString(q) \o ":" \o s ELSE "?"
 Contactable(mode, shape) ==
   CASE mode = "ip4" -> shape \in {"v4", "both", "mis", "mark", "big"}
     [] mode = "ip6" -> shape \in {"v6", "both"}
@@ -84,6 +88,8 @@ MonStep(mm, e) ==
   IN [mm EXCEPT !.running = @ /\ op.o # "shutdown", !.xs = xs2, !.votes = votes1,
                 !.answered = IF op.o \in {"response_in", "fail"} /\ ~Unres(e) /\ ~(op.o = "response_in" /\ op.body.t = "nodes" /\ op.body.total > 1) THEN @ \cup {op.req} ELSE @,
                 !.offered = IF op.o \in {"established", "add_enr"} THEN @ \cup {op.id} ELSE @,
+                !.offrecs = IF op.o \in {"established", "add_enr"} THEN @ \cup {op.rec} ELSE @,
+                !.netrecs = @ \cup UNION {{pks[k].recs[i].n : i \in 1..Len(pks[k].recs)} : k \in 1..Len(pks)},
                 !.talks = @ \o newTalks, !.tresp = @ \o newResp, !.reqs = @ \o newReqs,
                 !.table = obs.table, !.local = obs.local]
 
@@ -163,6 +169,12 @@ C12Viol(mm, m2, e) ==
   \cup (IF op.o \in {"response_in", "honest_reply"} /\ \E id \in IdsIn(tb) \cap IdsIn(prev) :
               Row(prev, id)[2] # Row(tb, id)[2] /\ ~(Row(tb, id)[6] > Row(prev, id)[6])
         THEN {"C12.ReplaceRule"} ELSE {})
+  \* whenever a record shows up in the table (also later, e.g. when a pending node is promoted): it is one a session / an explicit add
+  \* offered, or one learnt from the network whose sequence number is strictly higher than that of a record the node was offered with
+  \* (the value of ::1 is not judged)
+  \cup (IF \E id \in fresh \ {"L"} : LET R == Row(tb, id)[2] IN
+              ~(R \in m2.offrecs \/ (R \in m2.netrecs /\ \E R0 \in m2.offrecs \cup mm.netrecs : RecOwner(R0) = id /\ RecSeq(R0) < RecSeq(R)))
+        THEN {"C12.Provenance"} ELSE {})
 
 \* ------------------------------------------------------------------ C17: the advertised UDP address follows a clear majority only
 VCount(vs, s) == Cardinality({i \in 1..Len(vs) : vs[i].sock = s})
